@@ -35,5 +35,6 @@ func init() {
 		vmLeg(c, c.N(500, 8000), vmSizes{k: 24, maxSteps: 4000, maxText: 12, extra: 2}) // leg W: interpreter model vs executeDefault (vm.go)
 		wrLeg(c, 4000, 400000)
 		ccLeg(c, 3000, 150000) // leg Cc: toPat / InFrag / both sides of compile_correct on the engine's trees (compile.go)
+		plLeg(c, 1100, 60000)  // leg Pl: the compiler as one Lean function, stage by stage (pipeline.go)
 	})
 }
